@@ -414,9 +414,9 @@ Theorem output_allele_spec (g : config) (out : output) :
         (forall m, o_pop out = Some m -> cell_at m h i = Some (Some (b_pop b))) /\
         (forall m, o_smp out = Some m -> cell_at m h i = Some (Some (b_samp b))).
 Proof.
-  unfold output_vcf. intros H Hnd cur_chr [i0 [v0 [r [Erd Ecur]]]] ov Hcov.
+  unfold output_vcf. intros H Hnd cur_chr [i0 [v0 [r [Erd Ecur]]]]. cbv zeta. intros Hcov.
   destruct (negb (lenZ (g_tab g) =? g_npop g - 1)); [discriminate|].
-  unfold ov in *. clear ov. rewrite Erd in *. subst cur_chr.
+  rewrite Erd in *. subst cur_chr.
   set (ov := out_vars (rv_chr v0) (g_chroms g) ((i0, v0) :: r)) in *.
   set (st := mkds (g_tab g) _ (g_choice g) (g_strand g) (g_shuf g)) in H.
   destruct (haps_loop false (g_norep g) (g_npop g) (g_data g) (rv_chr v0) ov (g_chroms g) (g_bps g) st)
@@ -437,4 +437,28 @@ Proof.
     apply (P (fun x => snd (fst x))).
   - intros m Hm. destruct (emits_sample _ _ _ _); [|discriminate]. inversion Hm; subst m.
     apply (P (fun x => snd x)).
+Qed.
+
+(* the hypotheses of output_allele_spec are satisfiable: two simulated haplotypes over chromosomes 1 and 3
+   of a panel that also holds chromosome 2; the second haplotype has two tracts on chromosome 1 *)
+Definition ex_cfg : config :=
+  mkcfg [1; 3] 3 [(1, [0]); (2, [1])] ex_vars ex_data 2 None true true false false
+        [ex_hap; [mkseg 2 1 5 0; mkseg 1 1 2147483647 0; mkseg 1 3 2147483647 0]]
+        [0; 0; 0; 0; 0] [[0]; [0]; [1; 0]; [1]] [].
+
+Example output_allele_example :
+  output_vcf ex_cfg = Ok (mkout [0; 2] [[Some 0; Some 3]; [Some 0; Some 0]]
+                                (Some [[Some 1; Some 2]; [Some 1; Some 1]])
+                                (Some [[Some 0; Some 1]; [Some 0; Some 0]]))
+  /\ NoDup (g_chroms ex_cfg)
+  /\ (exists i0 v0 r, read_vars (g_region ex_cfg) (g_vars ex_cfg) = (i0, v0) :: r /\ false = rv_chr v0)
+  /\ (forall hap, In hap (g_bps ex_cfg) -> forall c, In c (g_chroms ex_cfg) ->
+        chrom_covered hap c (cvars_of false c (out_vars false (g_chroms ex_cfg)
+                                                 (read_vars (g_region ex_cfg) (g_vars ex_cfg))))).
+Proof.
+  split; [vm_compute; reflexivity|]. split.
+  { cbn. constructor; [cbn; intros [H|[]]; discriminate|]. constructor; [intros []|constructor]. }
+  split; [do 3 eexists; split; reflexivity|].
+  intros hap Hh c Hc. unfold chrom_covered. apply assign_pre_sound.
+  cbn in Hh, Hc. destruct Hh as [<-|[<-|[]]]; destruct Hc as [<-|[<-|[]]]; vm_compute; reflexivity.
 Qed.
